@@ -536,7 +536,8 @@ pub fn run(ctx: &Ctx) -> Outcome {
     let budget = ctx.tier.budget_s();
     let m1 = HostileModel::new(if quick { "hostile-remember-q" } else { "hostile-remember-t" }, quick, false);
     let m2 = HostileModel::new(if quick { "hostile-expire-q" } else { "hostile-expire-t" }, quick, true);
-    let maxd = if quick { 9 } else { 14 };
+    // quick: explicit, machine-independent depth
+    let maxd = if quick { 5 } else { 14 };
     let r1 = search(ctx, &m1, "C18", maxd, budget * 0.45, true);
     let r2 = search(ctx, &m2, "C18", maxd, budget * 0.85, true);
     fill_outcome(&mut out, &[(m1.name, &r1), (m2.name, &r2)]);
